@@ -142,6 +142,10 @@ Edit(m, v, t) ==
   /\ op' = [name |-> "edit", m |-> m, v |-> v, t |-> t]
   /\ UNCHANGED <<ast, sym, parser, out, ntorn>>
 
+\* `op` is outside the VIEW, so TLC never fingerprints it; a function value inside it would stay unevaluated and cannot be
+\* written when the state queue is paged to disk.  Comparing the value with itself makes TLC evaluate it.
+Force(f) == IF f = f THEN f ELSE f
+
 Run(enabled, force) ==
   /\ (WithOutputs \/ force)      \* the cache configuration (C05) always forces, so that every run shows all texts
   /\ LET ps0 == LoadParser(PInit, enabled)
@@ -152,7 +156,7 @@ Run(enabled, force) ==
         /\ op' = [name |-> "run", enabled |-> enabled, force |-> force,
                   res |-> IF st.ps.err = "" THEN "ok" ELSE "fail",
                   selected |-> selected,
-                  texts |-> [m \in {x \in selected : st.ps.err = "" \/ st.o[x] # out[x]} |-> st.o[m].body],
+                  texts |-> Force([m \in {x \in selected : st.ps.err = "" \/ st.o[x] # out[x]} |-> st.o[m].body]),
                   touched |-> [reads |-> st.ps.reads, writes |-> st.ps.writes]]
   /\ UNCHANGED <<src, mtime, ntorn>>
 
@@ -180,8 +184,8 @@ DeleteOutput(m) ==
 
 \* an output left behind by another version of the application: its header differs from every current header
 OldVersion(m) ==
-  /\ WithOutputs /\ out[m] # None /\ out[m].hdr # [d \in {m} |-> 0]
-  /\ out' = [out EXCEPT ![m].hdr = [d \in {m} |-> 0]]
+  /\ WithOutputs /\ out[m] # None /\ out[m].hdr # (m :> 0)
+  /\ out' = [out EXCEPT ![m].hdr = (m :> 0)]
   /\ op' = [name |-> "oldversion", m |-> m]
   /\ UNCHANGED <<src, mtime, ast, sym, parser, ntorn>>
 
@@ -214,7 +218,7 @@ Guard(d) ==
     [] d.name = "truncate" -> WithCache /\ ntorn < MaxTorn /\
          (CASE d.kind = "ast" -> ast[d.m] # None /\ ~ast[d.m].torn [] d.kind = "sym" -> sym[d.m] # None /\ ~sym[d.m].torn [] OTHER -> parser = "ok")
     [] d.name = "delete" -> WithOutputs /\ out[d.m] # None
-    [] d.name = "oldversion" -> WithOutputs /\ out[d.m] # None /\ out[d.m].hdr # [x \in {d.m} |-> 0]
+    [] d.name = "oldversion" -> WithOutputs /\ out[d.m] # None /\ out[d.m].hdr # (d.m :> 0)
 Do(d) ==
   CASE d.name = "edit" -> Edit(d.m, d.v, d.t)
     [] d.name = "run" -> Run(d.enabled, d.force)
